@@ -74,7 +74,7 @@ func mergeStates(a, b *State) *State {
 	// states agree on everything that matters only if the paths are exclusive, which they
 	// are for a deterministic CFG (edge conditions are complementary).  We therefore pick by a.G.
 	c := pathSelector(a.G, b.G)
-	out := &State{G: Or(a.G, b.G), Cells: map[*Cell]Value{}, Heap: map[string]*Term{}}
+	out := &State{G: factoredOr(a.G, b.G), Cells: map[*Cell]Value{}, Heap: map[string]*Term{}}
 	for k, va := range a.Cells {
 		if vb, ok := b.Cells[k]; ok {
 			out.Cells[k] = iteValue(c, va, vb)
@@ -122,6 +122,32 @@ func pathSelector(ga, gb *Term) *Term {
 		return And(only...)
 	}
 	return ga
+}
+
+// factoredOr builds ga ∨ gb with the common conjuncts pulled out:
+// (C ∧ A) ∨ (C ∧ B) = C ∧ (A ∨ B); complementary remainders vanish.
+func factoredOr(ga, gb *Term) *Term {
+	ca, cb := conjuncts(ga), conjuncts(gb)
+	inB := map[int]bool{}
+	for _, t := range cb {
+		inB[t.id] = true
+	}
+	var common, ra, rb []*Term
+	inCommon := map[int]bool{}
+	for _, t := range ca {
+		if inB[t.id] {
+			common = append(common, t)
+			inCommon[t.id] = true
+		} else {
+			ra = append(ra, t)
+		}
+	}
+	for _, t := range cb {
+		if !inCommon[t.id] {
+			rb = append(rb, t)
+		}
+	}
+	return And(append(common, Or(And(ra...), And(rb...)))...)
 }
 
 func conjuncts(t *Term) []*Term {
